@@ -41,6 +41,10 @@ type rowsScript struct {
 	FailAt  int   // Next call index (0-based) at which to fail; -1 = never
 	FailErr error // error returned at FailAt
 	CloseErr error
+	// More: the driver reports a second (empty) result set after this one
+	// (driver.RowsNextResultSet), as a stored procedure or a multi-statement
+	// query would.
+	More bool
 }
 
 type fakeDB struct {
@@ -284,6 +288,9 @@ func (s *fakeStmt) QueryContext(ctx context.Context, args []driver.NamedValue) (
 	s.conn.db.openRows++
 	s.conn.db.rowsOpened++
 	s.conn.db.mu.Unlock()
+	if rs.More {
+		return &fakeRowsMulti{fakeRows: &fakeRows{stmt: s, script: rs}}, nil
+	}
 	return &fakeRows{stmt: s, script: rs}, nil
 }
 
@@ -330,6 +337,24 @@ func (r *fakeRows) Next(dest []driver.Value) error {
 	}
 	copy(dest, r.script.Rows[r.next])
 	r.next++
+	return nil
+}
+
+// fakeRowsMulti is a fakeRows that also implements driver.RowsNextResultSet.
+type fakeRowsMulti struct {
+	*fakeRows
+	second bool
+}
+
+func (r *fakeRowsMulti) HasNextResultSet() bool { return !r.second }
+
+func (r *fakeRowsMulti) NextResultSet() error {
+	if r.second {
+		return io.EOF
+	}
+	r.second = true
+	r.fakeRows.script = &rowsScript{Cols: r.fakeRows.script.Cols, FailAt: -1, CloseErr: r.fakeRows.script.CloseErr}
+	r.fakeRows.next = 0
 	return nil
 }
 
